@@ -310,6 +310,20 @@ func guarded(at ssa.Instruction, s Source) bool {
 			return true
 		}
 	}
+	// value and ok flag handed through a helper: `v, ok := lookupHelper(k)` where the helper returns the two results
+	// of one comma-ok lookup (or nil,false): ok == true implies v is what the map held under an existing key
+	if ex, isEx := ssax.Strip(s.V).(*ssa.Extract); isEx {
+		if call, isCall := ex.Tuple.(*ssa.Call); isCall {
+			if j := okPairedResult(call.Call.StaticCallee(), ex.Index); j >= 0 {
+				trues, _ := ssax.BoolFactsAt(at)
+				for _, v := range trues {
+					if e2, ok := ssax.Strip(v).(*ssa.Extract); ok && e2.Tuple == ssa.Value(call) && e2.Index == j {
+						return true
+					}
+				}
+			}
+		}
+	}
 	if s.OkOf != nil {
 		trues, _ := ssax.BoolFactsAt(at)
 		for _, v := range trues {
@@ -422,4 +436,39 @@ func (a *Analysis) FindNilFields() {
 	for fl, at := range cands {
 		a.NilFields[fl] = at
 	}
+}
+
+// okPairedResult: h returns, at every return, result idx and a boolean result j that are the value and the ok flag of
+// one comma-ok map lookup / type assertion (or j is the constant false). Returns j, or -1.
+func okPairedResult(h *ssa.Function, idx int) int {
+	if h == nil || len(h.Blocks) == 0 {
+		return -1
+	}
+	res := h.Signature.Results()
+	for j := 0; j < res.Len(); j++ {
+		if j == idx || res.At(j).Type().String() != "bool" {
+			continue
+		}
+		all, n := true, 0
+		for _, r := range ssax.Returns(h) {
+			if idx >= len(r.Results) || j >= len(r.Results) {
+				all = false
+				continue
+			}
+			n++
+			okv := ssax.Strip(ssax.RetVal(r, j))
+			if k, isK := okv.(*ssa.Const); isK && k.Value != nil && k.Value.String() == "false" {
+				continue
+			}
+			ev, isE := okv.(*ssa.Extract)
+			vv, isV := ssax.Strip(ssax.RetVal(r, idx)).(*ssa.Extract)
+			if !isE || !isV || ev.Tuple != vv.Tuple || ev.Index != 1 || vv.Index != 0 {
+				all = false
+			}
+		}
+		if all && n > 0 {
+			return j
+		}
+	}
+	return -1
 }
